@@ -1175,6 +1175,9 @@ SEQUENCE_decode_uper(const asn_codec_ctx_t *opt_codec_ctx,
 
 		if(elm->flags & ATF_OPEN_TYPE) {
 			rv = OPEN_TYPE_uper_get(opt_codec_ctx, td, st, elm, pd);
+		} else if(!elm->type->op->uper_decoder) {
+			rv.code = RC_FAIL;	/* PER is not defined for this type */
+			rv.consumed = 0;
 		} else {
 			rv = elm->type->op->uper_decoder(opt_codec_ctx, elm->type,
 					elm->encoding_constraints.per_constraints, memb_ptr2, pd);
@@ -1460,6 +1463,7 @@ SEQUENCE_encode_uper(const asn_TYPE_descriptor_t *td,
 			continue;
 
         ASN_DEBUG("Encoding %s->%s:%s", td->name, elm->name, elm->type->name);
+        if(!elm->type->op->uper_encoder) ASN__ENCODE_FAILED;
         er = elm->type->op->uper_encoder(
             elm->type, elm->encoding_constraints.per_constraints, *memb_ptr2,
             po);
